@@ -245,9 +245,12 @@ def _known_type(n):
         import keyword
 
         names = [k.value if isinstance(k, ast.Constant) else None for k in n.value.keys]
-        # only a dictionary whose keys are distinct identifiers can be followed field by field (other keys are legal, but then
+        # only a dictionary whose keys are distinct identifiers in normal form (python normalizes identifiers: NFKC) can be followed field by field (other keys are legal, but then
         # nothing is known about a lookup)
-        followable = all(isinstance(x, str) and x.isidentifier() and not keyword.iskeyword(x) for x in names) and len(set(names)) == len(names)
+        import unicodedata
+
+        followable = all(isinstance(x, str) and x.isidentifier() and not keyword.iskeyword(x) and unicodedata.normalize("NFKC", x) == x for x in names) \
+            and len(set(names)) == len(names)
         if isinstance(key, str) and followable:
             for k, v in zip(n.value.keys, n.value.values):
                 if isinstance(k, ast.Constant) and k.value == key:
